@@ -9,6 +9,8 @@
 import Xc.Thm.C12
 import Xc.Lemmas.Shape
 import Xc.Lemmas.U8
+import Xc.Lemmas.Inj
+import Xc.Thm.C01
 namespace Xc.C03
 open Xc
 set_option maxRecDepth 1000000
@@ -81,5 +83,173 @@ theorem C03_nt_reduction (D : Digests) (p p' s s' H : Bytes) (h1 : cryptNt D p s
   cases h1
   simp only [Except.ok.injEq, List.append_cancel_left_eq] at h2
   exact (hexLower_inj _ _ h2).symm
+
+
+/-! ### reductions: two phrases that give the same hash collide in the method's core function
+
+For each method below: if `crypt_m p s` and `crypt_m p' s'` both succeed with the same string `H`, then both runs used the SAME
+salt and cost, and the core function (an arbitrary `D`, only its output length is assumed) returned the same digest for `p` and
+`p'`.  So a false accept is exactly a collision of the underlying construction: the string layer (parsers, encoders, field
+separators) loses nothing.  The encoders' injectivity is `permEncode_inj` over the schedules regenerated from the tree. -/
+
+theorem C03_md5crypt_reduction (D : Digests) (hD : D.WF) (p p' s s' H : Bytes)
+    (h1 : cryptMd5 D p s = .ok H) (h2 : cryptMd5 D p' s' = .ok H) : ∃ salt, D.md5crypt p salt = D.md5crypt p' salt :=
+  md5crypt_reduction D hD p p' s s' H h1 h2
+
+theorem C03_sha256crypt_reduction (D : Digests) (hD : D.WF) (p p' s s' H : Bytes)
+    (h1 : cryptSha256 D p s = .ok H) (h2 : cryptSha256 D p' s' = .ok H) :
+    ∃ salt rounds, D.sha256crypt p salt rounds = D.sha256crypt p' salt rounds := by
+  obtain ⟨c1, c2, c3⟩ := sha256_consts
+  unfold cryptSha256 at h1 h2
+  split at h1; · cases h1
+  rename_i P hP
+  split at h2; · cases h2
+  rename_i P' hP'
+  cases h1
+  simp only [Except.ok.injEq] at h2
+  exact sha_reduction_gen _ _ _ _ _ _ Gen.perm_sha256crypt 32 sha256_sched_ok (by omega) c1 c2 c3 (by decide) D.sha256crypt hD.sha256
+    p p' s s' P P' hP hP' h2.symm
+
+theorem C03_sha512crypt_reduction (D : Digests) (hD : D.WF) (p p' s s' H : Bytes)
+    (h1 : cryptSha512 D p s = .ok H) (h2 : cryptSha512 D p' s' = .ok H) :
+    ∃ salt rounds, D.sha512crypt p salt rounds = D.sha512crypt p' salt rounds := by
+  obtain ⟨c1, c2, c3⟩ := sha512_consts
+  unfold cryptSha512 at h1 h2
+  split at h1; · cases h1
+  rename_i P hP
+  split at h2; · cases h2
+  rename_i P' hP'
+  cases h1
+  simp only [Except.ok.injEq] at h2
+  exact sha_reduction_gen _ _ _ _ _ _ Gen.perm_sha512crypt 64 sha512_sched_ok (by omega) c1 c2 c3 (by decide) D.sha512crypt hD.sha512
+    p p' s s' P P' hP hP' h2.symm
+
+theorem C03_sha1crypt_reduction (D : Digests) (hD : D.WF) (p p' s s' H : Bytes)
+    (h1 : cryptSha1 D p s = .ok H) (h2 : cryptSha1 D p' s' = .ok H) :
+    ∃ salt iterations, D.sha1crypt p salt iterations = D.sha1crypt p' salt iterations := by
+  unfold cryptSha1 at h1 h2
+  split at h1; · cases h1
+  rename_i P hP
+  split at h2; · cases h2
+  rename_i P' hP'
+  cases h1
+  simp only [Except.ok.injEq, List.append_assoc, List.append_cancel_left_eq, List.singleton_append] at h2
+  obtain ⟨n1, r1⟩ := parseSha1_shape hP
+  obtain ⟨n2, r2⟩ := parseSha1_shape hP'
+  obtain ⟨e1, e2⟩ := append_stop_inj 36 _ _ _ _ (toDec_no36 _) (toDec_no36 _) h2
+  obtain ⟨e3, e4⟩ := append_stop_inj 36 _ _ _ _ n2 n1 e2
+  have ei := toDec_inj _ _ (by unfold ULONG_MAX at r2; omega) (by unfold ULONG_MAX at r1; omega) e1
+  have := sha1Encode_inj _ _ (hD.sha1 _ _ _) (hD.sha1 _ _ _) e4
+  rw [ei, e3] at this
+  exact ⟨P.salt, P.iterations, this.symm⟩
+
+/-- sunmd5: the same hashed prefix (tag, rounds field, salt) and the same digest -/
+theorem C03_sunmd5_reduction (D : Digests) (hD : D.WF) (p p' s s' H : Bytes)
+    (h1 : cryptSunmd5 D p s = .ok H) (h2 : cryptSunmd5 D p' s' = .ok H) :
+    ∃ pre n n', D.sunmd5 p pre n = D.sunmd5 p' pre n' := by
+  unfold cryptSunmd5 at h1 h2
+  split at h1; · cases h1
+  rename_i P hP
+  split at h2; · cases h2
+  rename_i P' hP'
+  cases h1
+  simp only [Except.ok.injEq, List.append_assoc, List.singleton_append] at h2
+  have hl : (36 :: permEncode Gen.perm_sunmd5 (D.sunmd5 p' (s'.take P'.saltlen) P'.nrounds)).length
+      = (36 :: permEncode Gen.perm_sunmd5 (D.sunmd5 p (s.take P.saltlen) P.nrounds)).length := by
+    simp [permEncode_length]
+  obtain ⟨e1, e2⟩ := List.append_inj' h2 hl
+  simp only [List.cons.injEq, true_and] at e2
+  obtain ⟨o1, o2⟩ := sunmd5_sched_ok
+  have := permEncode_inj _ 16 o1 o2 (by omega) _ _ (hD.sunmd5 _ _ _) (hD.sunmd5 _ _ _) e2
+  rw [e1] at this
+  exact ⟨_, _, _, this.symm⟩
+
+
+/-! the remaining methods use the round trip (C01): both phrases reproduce `H` from `H` itself, so they share one parse -/
+open List in
+/-- descrypt: same salt, colliding DES hash of the two keys -/
+theorem C03_descrypt_reduction (D : Digests) (hD : D.WF) (p p' s s' H : Bytes)
+    (h1 : cryptDes D p s = .ok H) (h2 : cryptDes D p' s' = .ok H) :
+    ∃ salt, D.desHash (desKey p) salt 25 = D.desHash (desKey p') salt 25 := by
+  have f1 := C01.C01_descrypt_fix D p s H h1
+  have f2 := C01.C01_descrypt_fix D p' s' H h2
+  unfold cryptDes at f1 f2
+  split at f1; · cases f1
+  rename_i salt hs
+  rw [hs] at f2
+  simp only [Except.ok.injEq] at f1 f2
+  have f := f1.trans f2.symm
+  simp only [List.cons_append, List.nil_append, List.cons.injEq, true_and] at f
+  exact ⟨salt, desEncode_inj _ _ (by rw [hD.des, hD.des]) f⟩
+
+/-- bsdicrypt: same count and salt, colliding folded-key DES hash -/
+theorem C03_bsdicrypt_reduction (D : Digests) (hD : D.WF) (p p' s s' H : Bytes)
+    (h1 : cryptBsdi D p s = .ok H) (h2 : cryptBsdi D p' s' = .ok H) :
+    ∃ salt count, D.bsdi p salt count = D.bsdi p' salt count := by
+  have f1 := C01.C01_bsdicrypt_fix D p s H h1
+  have f2 := C01.C01_bsdicrypt_fix D p' s' H h2
+  unfold cryptBsdi at f1 f2
+  split at f1; · cases f1
+  rename_i hcond
+  split at f1; · cases f1
+  rename_i count hc
+  split at f1; · cases f1
+  rename_i salt hsalt
+  rw [if_neg hcond, hc, hsalt] at f2
+  simp only [Except.ok.injEq] at f1 f2
+  have f := f1.trans f2.symm
+  simp only [List.append_cancel_left_eq] at f
+  exact ⟨salt, count, desEncode_inj _ _ (by rw [hD.bsdi, hD.bsdi]) f⟩
+
+/-- bcrypt: same subtype flags, cost and salt, colliding eksblowfish output -/
+theorem C03_bcrypt_reduction (D : Digests) (hD : D.WF) (p p' s s' H : Bytes)
+    (h1 : cryptBf D p s = .ok H) (h2 : cryptBf D p' s' = .ok H) :
+    ∃ flags cost salt, D.bf flags cost salt p = D.bf flags cost salt p' := by
+  have f1 := C01.C01_bcrypt_fix D p s H h1
+  have f2 := C01.C01_bcrypt_fix D p' s' H h2
+  unfold cryptBf at f1 f2
+  split at f1; · cases f1
+  rename_i P hP
+  rw [hP] at f2
+  dsimp only at f2
+  split at f1; · cases f1
+  rename_i hst
+  rw [if_neg hst] at f2
+  simp only [Except.ok.injEq] at f1 f2
+  have f := f1.trans f2.symm
+  simp only [List.append_cancel_left_eq] at f
+  exact ⟨P.flags, P.cost, P.salt, bfEncode_inj _ _ (by rw [hD.bf, hD.bf]) f⟩
+
+/-- yescrypt: same parameters and salt, colliding KDF output -/
+theorem C03_yescrypt_reduction (D : Digests) (hD : D.WF) (p p' s s' H : Bytes)
+    (h1 : cryptYescrypt D p s = .ok H) (h2 : cryptYescrypt D p' s' = .ok H) :
+    ∃ params salt h, D.yescrypt params salt p = some h ∧ D.yescrypt params salt p' = some h := by
+  have f1 := C01.C01_yescrypt_fix D p s H h1
+  have f2 := C01.C01_yescrypt_fix D p' s' H h2
+  unfold cryptYescrypt cryptYescryptCore at f1 f2
+  split at f1; · cases f1
+  rename_i out1 ho1
+  split at f2; · cases f2
+  rename_i out2 ho2
+  simp only [Except.ok.injEq] at f1 f2
+  subst f1; subst f2
+  unfold yescryptR at ho1 ho2
+  split at ho1; · cases ho1
+  rename_i Q hQ
+  rw [hQ] at ho2
+  dsimp only at ho2
+  split at ho1; · cases ho1
+  rename_i hd1 e1
+  split at ho2; · cases ho2
+  rename_i hd2 e2
+  dsimp only at ho1 ho2
+  split at ho1; · cases ho1
+  split at ho2; · cases ho2
+  simp only [Option.some.injEq] at ho1 ho2
+  have ho := ho1.trans ho2.symm
+  simp only [List.append_cancel_left_eq] at ho
+  have := encode64_inj _ _ (by rw [hD.yes _ _ _ _ e1, hD.yes _ _ _ _ e2]) ho
+  subst this
+  exact ⟨Q.params, Q.salt, hd1, e1, e2⟩
 
 end Xc.C03
